@@ -3,7 +3,7 @@
    Print Assumptions.  Statements are over the executable model of coq/C19/Model.v, whose
    constants are regenerated from /repo into Gen.v on every run. *)
 From Coq Require Import Permutation.
-From C19 Require Import Model Proofs ProofsMachine ProofsHeap ProofsSpans.
+From C19 Require Import Model Proofs ProofsMachine ProofsHeap ProofsSpans ProofsOwn.
 Local Open Scope Z_scope.
 
 (* every small request is served by a class whose blocks are at least as large *)
@@ -157,3 +157,58 @@ Theorem C19_finalize_unmaps_everything : forall mc ops st, srun mc sempty ops = 
   exists st', op_finalize st = Some st' /\ regions st' = [] /\ objs st' = [].
 Proof. exact finalize_unmaps_everything. Qed.
 Print Assumptions C19_finalize_unmaps_everything.
+
+(* ---- whole heap, histories of L_alloc calls (ProofsOwn.v) ----
+   own_ok psh h: a span is owned by at most one size class; a span owned by a class lies outside every
+   large/huge block; large/huge blocks occupy pairwise disjoint runs of spans.
+   It holds after ANY sequence of l_alloc calls (free, realloc in place, realloc by allocate-copy-free,
+   over all four size regimes, any pointers/sizes/environment answers) that the model accepts. *)
+Theorem C19_lalloc_history_ownership : forall psh calls h, lrun psh heap_empty calls = Some h -> own_ok psh h.
+Proof. exact lalloc_history_ownership. Qed.
+Print Assumptions C19_lalloc_history_ownership.
+
+(* ... hence blocks of different size classes, and a class block and a large/huge block, never overlap
+   (blocks of the same class: C19_span_machine_history + C19_blocks_disjoint) *)
+Theorem C19_blocks_of_different_classes_disjoint : forall psh h c1 c2 s1 i1 s2 i2, own_ok psh h ->
+  class_owns h c1 s1 -> class_owns h c2 s2 -> c1 <> c2 -> valid_class c1 -> valid_class c2 ->
+  0 <= i1 < class_bc c1 -> 0 <= i2 < class_bc c2 ->
+  let a1 := address s1 (block_offset (class_bs c1) i1) in let a2 := address s2 (block_offset (class_bs c2) i2) in
+  a1 + class_bs c1 <= a2 \/ a2 + class_bs c2 <= a1.
+Proof. exact blocks_of_different_classes_disjoint. Qed.
+Print Assumptions C19_blocks_of_different_classes_disjoint.
+
+Theorem C19_small_block_disjoint_from_big : forall psh h c s i sb b, own_ok psh h ->
+  class_owns h c s -> In (sb, b) (h_big h) -> valid_class c -> 0 <= i < class_bc c -> 0 <= big_units psh b ->
+  let a := address s (block_offset (class_bs c) i) in
+  a + class_bs c <= address sb 0 \/ address (sb + big_units psh b) 0 <= a.
+Proof. exact small_block_disjoint_from_big. Qed.
+Print Assumptions C19_small_block_disjoint_from_big.
+
+Theorem C19_big_blocks_disjoint : forall psh h x y l1 l2, own_ok psh h -> h_big h = l1 ++ x :: l2 -> In y (l1 ++ l2) ->
+  big_disjoint psh x y.
+Proof. exact big_blocks_disjoint. Qed.
+Print Assumptions C19_big_blocks_disjoint.
+
+(* the environment assumption of the heap model is discharged by the span layer: a span object of a
+   span-layer state (ProofsSpans.v, any history) is accepted by the heap's in-use check whenever the
+   spans the heap owns are other objects of that state *)
+Theorem C19_span_layer_supplies_accepted_span : forall psh h ss l1 o l2,
+  pairwise obj_disjoint (objs ss) -> objs ss = l1 ++ o :: l2 ->
+  (forall c cs s v, In (c, cs) (h_classes h) -> In (s, v) (c_spans cs) ->
+     exists x, In x (l1 ++ l2) /\ so_start x = s /\ so_count x = 1) ->
+  (forall kb, In kb (h_big h) -> exists x, In x (l1 ++ l2) /\ so_start x = fst kb /\ so_count x = big_units psh (snd kb)) ->
+  range_in_use psh h (so_start o) (so_count o) = false.
+Proof. exact span_layer_supplies_accepted_span. Qed.
+Print Assumptions C19_span_layer_supplies_accepted_span.
+
+(* contents across a moving reallocation: memcpy of copy_len bytes into a block that does not overlap
+   the old one preserves the first min(old,new) bytes and changes nothing outside the new block *)
+Theorem C19_contents_preserved : forall m old new osize nsize usable_new,
+  let n := realloc_new_size nsize osize in
+  0 <= osize -> 0 <= nsize -> n <= usable_new ->
+  (new + usable_new <= old \/ old + osize <= new) ->
+  let m' := mem_copy new old (copy_len osize n) m in
+  (forall i, 0 <= i < Z.min osize nsize -> m' (new + i) = m (old + i)) /\
+  (forall a, a < new \/ new + usable_new <= a -> m' a = m a).
+Proof. exact contents_preserved. Qed.
+Print Assumptions C19_contents_preserved.
